@@ -30,6 +30,7 @@ from vplib import common, hist, vallib
 from vplib.vallib import O, jget, jset, jdel, jrename, jcopy, jload, Spelling, PLAIN, Rawjson
 
 KNOWN_SLUG = "validator-escaped-string"
+KNOWN_EMPTY_LPATH = "empty-logical-path"
 INVALID, VALID = True, False
 
 
@@ -144,6 +145,17 @@ def _prior_dirs(o):
     return [d for d in o.inventory_dirs()[1:] if os.path.basename(d) != o.head]
 
 
+def pick(o, rng, seq):
+    """the main variant of an edit: the k-th object made by an edit kind takes the k-th element (so that a
+    short run still covers every variant of a list in order); later choices inside the same edit are random"""
+    seq = list(seq)
+    k = getattr(o, "k", None)
+    if k is not None and not getattr(o, "_picked", False):
+        o._picked = True
+        return seq[k % len(seq)]
+    return rng.choice(seq)
+
+
 def first_digest(o):
     m = o.manifest()
     return m[0][0] if m else None
@@ -221,7 +233,7 @@ for _k, _vals in (("id", [7, None, ["x"]]), ("type", [1, None]), ("digestAlgorit
 
 @edit("unknown-top-key")
 def _(o, rng):
-    o.t.append((rng.choice(["extra", "Id", "digest", "created", "state"]), rng.choice(["x", 1, O(), []])))
+    o.t.append((pick(o, rng, ["extra", "Id", "digest", "created", "state"]), pick(o, rng, ["x", 1, O(), []])))
     o.save()
     return both(INVALID)
 
@@ -229,7 +241,7 @@ def _(o, rng):
 @edit("type-uri")
 def _(o, rng):
     cur = jget(o.t, "type")
-    new = rng.choice(["https://ocfl.io/1.2/spec/#inventory", "https://ocfl.io/1.0/spec/", "http://ocfl.io/1.0/spec/#inventory",
+    new = pick(o, rng, ["https://ocfl.io/1.2/spec/#inventory", "https://ocfl.io/1.0/spec/", "http://ocfl.io/1.0/spec/#inventory",
                       "https://ocfl.io/1.0/spec/#Inventory", cur + " ", "",
                       "https://ocfl.io/1.1/spec/#inventory" if cur.startswith("https://ocfl.io/1.0") else "https://ocfl.io/1.0/spec/#inventory"])
     jset(o.t, "type", new)
@@ -239,7 +251,7 @@ def _(o, rng):
 
 @edit("alg-name")
 def _(o, rng):
-    jset(o.t, "digestAlgorithm", rng.choice(["md5", "SHA512", "sha-512", "sha1", "blake2b-512", "", "sha512 ", "sha512/256"]))
+    jset(o.t, "digestAlgorithm", pick(o, rng, ["md5", "SHA512", "sha-512", "sha1", "blake2b-512", "", "sha512 ", "sha512/256"]))
     o.save(alg="sha512")
     return both(INVALID)
 
@@ -250,7 +262,7 @@ def _(o, rng):
     cands = ["v0", "1", "V1", "", "v", "v1.0", "v-1", "head", "v" + str(len(vk) + 1), " v1", "v1 "]
     if len(vk) >= 2:
         cands += [vk[0]] * 4
-    h = rng.choice(cands)
+    h = pick(o, rng, cands)
     if h == o.head:
         return None
     jset(o.t, "head", h)
@@ -261,7 +273,7 @@ def _(o, rng):
 
 @edit("cdir-bad")
 def _(o, rng):
-    jset(o.t, "contentDirectory", rng.choice(["a/b", ".", "..", "", "content/", "/content", "./content"]))
+    jset(o.t, "contentDirectory", pick(o, rng, ["a/b", ".", "..", "", "content/", "/content", "./content"]))
     o.save()
     return both(INVALID)
 
@@ -292,7 +304,7 @@ def _(o, rng):
 @edit("version-padding-mixed")
 def _(o, rng):
     vk = o.vkeys()
-    k = rng.choice(vk)
+    k = pick(o, rng, vk)
     new = ("v" + k[1:].lstrip("0")) if k.startswith("v0") else ("v0" + k[1:])
     if new in vk or new == "v":
         return None
@@ -309,7 +321,7 @@ def _(o, rng):
 
 @edit("version-key-bad")
 def _(o, rng):
-    new = rng.choice(["v0", "v1x", "1", "version1", "v", "v-2", "V9", "v1.5", ""])
+    new = pick(o, rng, ["v0", "v1x", "1", "version1", "v", "v-2", "V9", "v1.5", ""])
     if new in o.vkeys():
         return None
     o.versions().append((new, jcopy(o.headblock())))
@@ -339,14 +351,14 @@ CREATED_INVALID = ["2020-01-01T00:00:00", "2020-01-01T00:00Z", "2020-01-01T00:00
 
 @edit("created-valid")
 def _(o, rng):
-    jset(o.headblock(), "created", rng.choice(CREATED_VALID))
+    jset(o.headblock(), "created", pick(o, rng, CREATED_VALID))
     o.save()
     return both(VALID)
 
 
 @edit("created-invalid")
 def _(o, rng):
-    jset(o.headblock(), "created", rng.choice(CREATED_INVALID))
+    jset(o.headblock(), "created", pick(o, rng, CREATED_INVALID))
     o.save()
     return both(INVALID)
 
@@ -367,7 +379,7 @@ def _(o, rng):
 
 @edit("created-type")
 def _(o, rng):
-    jset(o.headblock(), "created", rng.choice([1577836800, None, ["2020-01-01T00:00:00Z"], O()]))
+    jset(o.headblock(), "created", pick(o, rng, [1577836800, None, ["2020-01-01T00:00:00Z"], O()]))
     o.save()
     return both(INVALID)
 
@@ -382,7 +394,7 @@ def _(o, rng):
     cands = [i for i, (d, _) in enumerate(m) if re.search(r"[a-fA-F]", d)]
     if not cands:
         return None
-    i = rng.choice(cands)
+    i = pick(o, rng, cands)
     m[i] = (_swapcase_hex(m[i][0]), m[i][1])
     o.save()
     return both(INVALID)
@@ -394,7 +406,7 @@ def _(o, rng):
     cands = [d for d, _ in m if re.search(r"[a-fA-F]", d)]
     if not cands:
         return None
-    d = rng.choice(cands)
+    d = pick(o, rng, cands)
     nd = _swapcase_hex(d)
 
     def f(t):
@@ -416,7 +428,7 @@ def _(o, rng):
     d = first_digest(o)
     if d is None:
         return None
-    nd = rng.choice([d[:-1], d + "0", d[:32], d[: len(d) // 2]])
+    nd = pick(o, rng, [d[:-1], d + "0", d[:32], d[: len(d) // 2]])
     jrename(o.manifest(), d, nd)
     for _, vb in o.versions():
         jrename(jget(vb, "state"), d, nd)
@@ -429,7 +441,7 @@ def _(o, rng):
     d = first_digest(o)
     if d is None:
         return None
-    nd = d[:-1] + rng.choice("gz_ ")
+    nd = d[:-1] + pick(o, rng, "gz_ ")
     jrename(o.manifest(), d, nd)
     for _, vb in o.versions():
         jrename(jget(vb, "state"), d, nd)
@@ -443,7 +455,7 @@ def _(o, rng):
     cands = [(d, ps) for d, ps in m if re.search(r"[a-fA-F]", d) and ps]
     if not cands:
         return None
-    d, ps = rng.choice(cands)
+    d, ps = pick(o, rng, cands)
     # the same digest a second time in the other case, with a second copy of the file
     src = os.path.join(o.path, ps[0])
     newp = ps[0] + ".copy"
@@ -463,7 +475,7 @@ def _(o, rng):
     i, j = rng.choice(cands)
     p = m[i][1][j]
     parts = p.split("/")
-    kind = rng.choice(["dot", "dotdot", "empty", "lead", "trail", "dotend"])
+    kind = pick(o, rng, ["dot", "dotdot", "empty", "lead", "trail", "dotend"])
     if kind == "dot":
         np = "/".join(parts[:2] + ["."] + parts[2:])
     elif kind == "dotdot":
@@ -487,7 +499,7 @@ def _(o, rng):
     cands = [ps[0] for _, ps in m if ps]
     if not cands:
         return None
-    p = rng.choice(cands)
+    p = pick(o, rng, cands)
     data = b"conflict " + p.encode()
     d = hashlib.new(o.alg, data).hexdigest()
     m.append((d, [p + "/sub.txt"]))
@@ -502,11 +514,11 @@ def _(o, rng):
     cands = [i for i, (_, ps) in enumerate(m) if ps]
     if not cands:
         return None
-    i = rng.choice(cands)
+    i = pick(o, rng, cands)
     if rng.random() < 0.5 or len(cands) < 2:
         m[i][1].append(m[i][1][0])
     else:
-        j = rng.choice([c for c in cands if c != i])
+        j = pick(o, rng, [c for c in cands if c != i])
         m[j][1].append(m[i][1][0])
     o.save()
     return both(INVALID)
@@ -518,7 +530,7 @@ def _(o, rng):
     cands = [(i, j) for i, (_, ps) in enumerate(m) for j in range(len(ps))]
     if not cands:
         return None
-    i, j = rng.choice(cands)
+    i, j = pick(o, rng, cands)
     p = m[i][1][j]
     v = p.split("/")[0]
     np = v + "/" + os.path.basename(p) + ".moved"
@@ -548,7 +560,7 @@ def _(o, rng):
     if s is None:
         return None
     st, i, j = s
-    st[i][1][j] = rng.choice(LPATH_BAD)
+    st[i][1][j] = pick(o, rng, LPATH_BAD)
     o.save()
     return both(INVALID)
 
@@ -559,7 +571,7 @@ def _(o, rng):
     if s is None:
         return None
     st, i, j = s
-    new = rng.choice(LPATH_ODD)
+    new = pick(o, rng, LPATH_ODD)
     allp = [p for _, ps in st for p in ps]
     if any(p == new or p.startswith(new + "/") or new.startswith(p + "/") for p in allp):
         return None
@@ -602,7 +614,7 @@ def _(o, rng):
     def used_elsewhere(d):
         return sum(1 for _, vb in o.versions() if isinstance(jget(vb, "state"), O) and any(k == d for k, _ in jget(vb, "state"))) >= 2
     cands = [i for i, (d, _) in enumerate(st) if used_elsewhere(d)] or list(range(len(st)))
-    i = rng.choice(cands)
+    i = pick(o, rng, cands)
     d = st[i][0]
     nd = d[:-1] + ("0" if d[-1] != "0" else "1")
     if nd in [x for x, _ in o.manifest()]:
@@ -650,7 +662,7 @@ def _(o, rng):
     m = o.manifest()
     if not m:
         return None
-    d = rng.choice([x for x, _ in m])
+    d = pick(o, rng, [x for x, _ in m])
     if any(k == d for k, _ in st):
         for i, (k, ps) in enumerate(st):
             if k == d:
@@ -665,27 +677,27 @@ def _(o, rng):
 
 @edit("paths-not-array")
 def _(o, rng):
-    where = rng.choice(["manifest", "state"])
+    where = pick(o, rng, ["manifest", "state"])
     blk = o.manifest() if where == "manifest" else jget(o.headblock(), "state")
     if not blk:
         return None
     i = rng.randrange(len(blk))
     ps = blk[i][1]
-    blk[i] = (blk[i][0], rng.choice([ps[0] if ps else "x", O((p, 1) for p in ps), None, ps + [7], [ps], ps + [None]]))
+    blk[i] = (blk[i][0], pick(o, rng, [ps[0] if ps else "x", O((p, 1) for p in ps), None, ps + [7], [ps], ps + [None]]))
     o.save()
     return both(INVALID)
 
 
 @edit("message-type")
 def _(o, rng):
-    jset(o.headblock(), "message", rng.choice([1, None, ["m"], O(), True]))
+    jset(o.headblock(), "message", pick(o, rng, [1, None, ["m"], O(), True]))
     o.save()
     return both(INVALID)
 
 
 @edit("message-odd-valid")
 def _(o, rng):
-    jset(o.headblock(), "message", rng.choice(["", " ", "line1\nline2\ttab", "quote \" backslash \\ slash /", "日本語 \U0001F600",
+    jset(o.headblock(), "message", pick(o, rng, ["", " ", "line1\nline2\ttab", "quote \" backslash \\ slash /", "日本語 \U0001F600",
                                                "é vs é", "\u0001\u001f control", "x" * 5000]))
     o.save()
     return both(VALID)
@@ -693,7 +705,7 @@ def _(o, rng):
 
 @edit("user-bad")
 def _(o, rng):
-    jset(o.headblock(), "user", rng.choice(["alice", 1, None, ["a"], O(), O([("address", "mailto:a@b.c")]),
+    jset(o.headblock(), "user", pick(o, rng, ["alice", 1, None, ["a"], O(), O([("address", "mailto:a@b.c")]),
                                             O([("name", 1)]), O([("name", None)]), O([("name", ["A"])]),
                                             O([("name", "A"), ("address", 5)]), O([("name", "A"), ("address", None)]),
                                             O([("Name", "A")])]))
@@ -703,7 +715,7 @@ def _(o, rng):
 
 @edit("user-odd-valid")
 def _(o, rng):
-    jset(o.headblock(), "user", rng.choice([O([("name", "A")]), O([("address", "mailto:a@b.c"), ("name", "Zoë")]),
+    jset(o.headblock(), "user", pick(o, rng, [O([("name", "A")]), O([("address", "mailto:a@b.c"), ("name", "Zoë")]),
                                             O([("name", "Zoë"), ("address", "not a uri")]), O([("name", "")]),
                                             O([("name", "q\"uote\\"), ("address", "https://orcid.org/0000-0002-1825-0097")]),
                                             O([("name", "\U0001F600"), ("address", "mailto:zoë@example.org")])]))
@@ -720,7 +732,7 @@ def _(o, rng):
 
 @edit("version-unknown-key")
 def _(o, rng):
-    o.headblock().append((rng.choice(["extra", "Created", "users", "id"]), "x"))
+    o.headblock().append((pick(o, rng, ["extra", "Created", "users", "id"]), "x"))
     o.save()
     return both(INVALID)
 
@@ -728,7 +740,7 @@ def _(o, rng):
 @edit("version-dup-key")
 def _(o, rng):
     hb = o.headblock()
-    k, v = rng.choice(hb)
+    k, v = pick(o, rng, hb)
     hb.append((k, jcopy(v)))
     o.save()
     return both(INVALID)
@@ -736,7 +748,7 @@ def _(o, rng):
 
 @edit("version-not-object")
 def _(o, rng):
-    jset(o.versions(), o.head, rng.choice(["x", 1, None, []]))
+    jset(o.versions(), o.head, pick(o, rng, ["x", 1, None, []]))
     o.save()
     return both(INVALID)
 
@@ -746,7 +758,7 @@ def _(o, rng):
     if rng.random() < 0.5:
         jdel(o.headblock(), "state")
     else:
-        jset(o.headblock(), "state", rng.choice([[], "s", None]))
+        jset(o.headblock(), "state", pick(o, rng, [[], "s", None]))
     o.save()
     return both(INVALID)
 
@@ -756,7 +768,7 @@ def _(o, rng):
     st = jget(o.headblock(), "state")
     if not st:
         return None
-    d, ps = rng.choice(st)
+    d, ps = pick(o, rng, st)
     st.append((d, ["dup-" + str(rng.randrange(1000))]))
     o.save()
     # RFC 8259 section 4: names SHOULD be unique; E096 / E097 cover manifest and fixity only - no MUST broken
@@ -768,7 +780,7 @@ def _(o, rng):
     m = o.manifest()
     if not m:
         return None
-    d, ps = rng.choice(m)
+    d, ps = pick(o, rng, m)
     data = open(os.path.join(o.path, ps[0]), "rb").read()
     p = "%s/%s/dup-file.bin" % (o.head, o.cdir)
     rewrite(os.path.join(o.path, p), data)
@@ -810,7 +822,7 @@ def _(o, rng):
 
 @edit("fixity-empty-block")
 def _(o, rng):
-    jset(o.t, "fixity", rng.choice([O(), O([("md5", O())]), O([("sha1", O()), ("md5", O())])]))
+    jset(o.t, "fixity", pick(o, rng, [O(), O([("md5", O())]), O([("sha1", O()), ("md5", O())])]))
     o.save()
     return both(VALID)
 
@@ -819,7 +831,7 @@ def _(o, rng):
 def _(o, rng):
     if not o.manifest():
         return None
-    a = rng.choice(["md5", "sha1", "sha256", "sha512"])
+    a = pick(o, rng, ["md5", "sha1", "sha256", "sha512"])
     blk = _fixity_block(o, a, rng, 1)
     d, ps = blk[0]
     nd = d[:-1] + ("0" if d[-1] != "0" else "1")
@@ -871,17 +883,17 @@ def _(o, rng):
     a = rng.choice(["md5", "sha1"])
     blk = _fixity_block(o, a, rng, 2)
     d, ps = blk[0]
-    kind = rng.choice(["block-type", "paths-type", "dup-case", "path-bad", "path-twice", "path-elem"])
+    kind = pick(o, rng, ["block-type", "paths-type", "dup-case", "path-bad", "path-twice", "path-elem"])
     if kind == "block-type":
-        fx = O([(a, rng.choice([[], "x", None, 1]))])
+        fx = O([(a, pick(o, rng, [[], "x", None, 1]))])
     elif kind == "paths-type":
-        fx = O([(a, O([(d, rng.choice([ps[0], None, O(), 1]))]))])
+        fx = O([(a, O([(d, pick(o, rng, [ps[0], None, O(), 1]))]))])
     elif kind == "dup-case":
         if not re.search(r"[a-f]", d):
             return None
         fx = O([(a, O([(d, ps), (d.upper(), ps)]))])
     elif kind == "path-bad":
-        fx = O([(a, O([(d, [rng.choice(["/" + ps[0], ps[0] + "/", ps[0].replace("/", "//", 1), "./" + ps[0], "v1/../" + ps[0]])])]))])
+        fx = O([(a, O([(d, [pick(o, rng, ["/" + ps[0], ps[0] + "/", ps[0].replace("/", "//", 1), "./" + ps[0], "v1/../" + ps[0]])])]))])
     elif kind == "path-twice":
         fx = O([(a, O([(d, [ps[0], ps[0]])]))])
     else:
@@ -905,10 +917,10 @@ def _(o, rng):
 def _(o, rng):
     if not o.manifest():
         return None
-    a = rng.choice(["md5", "sha1"])
+    a = pick(o, rng, ["md5", "sha1"])
     blk = _fixity_block(o, a, rng, 1)
     d, ps = blk[0]
-    jset(o.t, "fixity", O([(a, O([(rng.choice([d[:-2], d + "00", "xyz", ""]), ps)]))]))
+    jset(o.t, "fixity", O([(a, O([(pick(o, rng, [d[:-2], d + "00", "xyz", ""]), ps)]))]))
     o.save()
     return (INVALID, None)
 
@@ -918,7 +930,7 @@ def _(o, rng):
     if not o.manifest():
         return None
     p = o.manifest()[0][1][0]
-    jset(o.t, "fixity", O([(rng.choice(["crc32", "sha3-256", "size", "MD5"]), O([("abcdef01", [p])]))]))
+    jset(o.t, "fixity", O([(pick(o, rng, ["crc32", "sha3-256", "size", "MD5"]), O([("abcdef01", [p])]))]))
     o.save()
     return (None, None)
 
@@ -927,13 +939,13 @@ def _(o, rng):
 
 @edit("fs-stray-file-root")
 def _(o, rng):
-    rewrite(os.path.join(o.path, rng.choice(["readme.txt", ".DS_Store", "inventory.json.bak", "v1.txt", "1=extra", "inventory.jsonx"])), b"x")
+    rewrite(os.path.join(o.path, pick(o, rng, ["readme.txt", ".DS_Store", "inventory.json.bak", "v1.txt", "1=extra", "inventory.jsonx"])), b"x")
     return both(INVALID)
 
 
 @edit("fs-stray-dir-root")
 def _(o, rng):
-    os.makedirs(os.path.join(o.path, rng.choice(["tmp", "content", "v", "vx1", "Logs", "extension"])), exist_ok=True)
+    os.makedirs(os.path.join(o.path, pick(o, rng, ["tmp", "content", "v", "vx1", "Logs", "extension"])), exist_ok=True)
     return both(INVALID)
 
 
@@ -946,13 +958,13 @@ def _(o, rng):
 
 @edit("fs-stray-file-version")
 def _(o, rng):
-    rewrite(os.path.join(o.path, rng.choice(o.vkeys()), rng.choice(["notes.txt", "inventory.json.bak", ".keep"])), b"x")
+    rewrite(os.path.join(o.path, pick(o, rng, o.vkeys()), pick(o, rng, ["notes.txt", "inventory.json.bak", ".keep"])), b"x")
     return both(INVALID)
 
 
 @edit("fs-stray-dir-version")
 def _(o, rng):
-    d = os.path.join(o.path, rng.choice(o.vkeys()), rng.choice(["extra", "metadata"]))
+    d = os.path.join(o.path, pick(o, rng, o.vkeys()), pick(o, rng, ["extra", "metadata"]))
     os.makedirs(d, exist_ok=True)
     rewrite(os.path.join(d, "f.txt"), b"ignored")
     return both(VALID)
@@ -961,7 +973,7 @@ def _(o, rng):
 @edit("fs-missing-version-dir")
 def _(o, rng):
     vk = o.vkeys()
-    v = rng.choice(vk)
+    v = pick(o, rng, vk)
     shutil.rmtree(os.path.join(o.path, v))
     # spec: a version directory may be absent only if nothing refers to it - the inventory lists it (E010)
     return both(INVALID)
@@ -999,7 +1011,7 @@ def _(o, rng):
 def _(o, rng):
     n = [x for x in os.listdir(o.path) if x.startswith("0=")][0]
     good = n[2:]
-    rewrite(os.path.join(o.path, n), rng.choice([good.encode(), (good + "\r\n").encode(), (good + "\n\n").encode(), b"", b"ocfl_object\n",
+    rewrite(os.path.join(o.path, n), pick(o, rng, [good.encode(), (good + "\r\n").encode(), (good + "\n\n").encode(), b"", b"ocfl_object\n",
                                                  (" " + good + "\n").encode(), good.upper().encode() + b"\n",
                                                  ("ocfl_object_1.1\n" if good.endswith("1.0") else "ocfl_object_1.0\n").encode()]))
     return both(INVALID)
@@ -1008,7 +1020,7 @@ def _(o, rng):
 @edit("fs-declaration-name")
 def _(o, rng):
     n = [x for x in os.listdir(o.path) if x.startswith("0=")][0]
-    new = rng.choice(["0=ocfl_object_1.2", "0=ocfl_object_", "0=ocfl_1.0", "0=OCFL_OBJECT_1.0", "0=ocfl_object_1.0.txt", "0=ocfl_object_2.0"])
+    new = pick(o, rng, ["0=ocfl_object_1.2", "0=ocfl_object_", "0=ocfl_1.0", "0=OCFL_OBJECT_1.0", "0=ocfl_object_1.0.txt", "0=ocfl_object_2.0"])
     os.rename(os.path.join(o.path, n), os.path.join(o.path, new))
     rewrite(os.path.join(o.path, new), (new[2:] + "\n").encode())
     return both(INVALID)
@@ -1028,14 +1040,14 @@ def _(o, rng):
     cands = [v for v in o.vkeys() if not os.path.exists(os.path.join(o.path, v, o.cdir))]
     if not cands:
         return None
-    os.makedirs(os.path.join(o.path, rng.choice(cands), o.cdir))
+    os.makedirs(os.path.join(o.path, pick(o, rng, cands), o.cdir))
     return (None, None)
 
 
 @edit("fs-empty-dir-in-content")
 def _(o, rng):
-    v = rng.choice(o.vkeys())
-    os.makedirs(os.path.join(o.path, v, o.cdir, rng.choice(["emptydir", "a/b/c"])))
+    v = pick(o, rng, o.vkeys())
+    os.makedirs(os.path.join(o.path, v, o.cdir, pick(o, rng, ["emptydir", "a/b/c"])))
     return both(INVALID)
 
 
@@ -1047,7 +1059,7 @@ def _(o, rng):
 
 @edit("fs-extensions-dir")
 def _(o, rng):
-    rewrite(os.path.join(o.path, "extensions", rng.choice(["0001-digest-algorithms", "my-ext"]), "config.json"), b"{}")
+    rewrite(os.path.join(o.path, "extensions", pick(o, rng, ["0001-digest-algorithms", "my-ext"]), "config.json"), b"{}")
     return both(VALID)
 
 
@@ -1071,14 +1083,14 @@ def _(o, rng):
     fs = o.content_files()
     if not fs:
         return None
-    os.remove(os.path.join(o.path, rng.choice(fs)))
+    os.remove(os.path.join(o.path, pick(o, rng, fs)))
     return both(INVALID)
 
 
 @edit("fs-content-extra")
 def _(o, rng):
-    v = rng.choice(o.vkeys())
-    rewrite(os.path.join(o.path, v, o.cdir, rng.choice(["extra.txt", "sub/extra.txt"])), b"extra")
+    v = pick(o, rng, o.vkeys())
+    rewrite(os.path.join(o.path, v, o.cdir, pick(o, rng, ["extra.txt", "sub/extra.txt"])), b"extra")
     return both(INVALID)
 
 
@@ -1087,7 +1099,7 @@ def _(o, rng):
     fs = o.content_files()
     if not fs:
         return None
-    p = os.path.join(o.path, rng.choice(fs))
+    p = os.path.join(o.path, pick(o, rng, fs))
     data = open(p, "rb").read()
     rewrite(p, (bytes([data[0] ^ 1]) + data[1:]) if data else b"x")
     return (INVALID, VALID)
@@ -1095,7 +1107,7 @@ def _(o, rng):
 
 @edit("fs-sidecar-wrong-digest")
 def _(o, rng):
-    where = rng.choice([o.path, os.path.join(o.path, o.head)])
+    where = pick(o, rng, [o.path, os.path.join(o.path, o.head)])
     p = os.path.join(where, "inventory.json." + o.alg)
     if not os.path.exists(p):
         return None
@@ -1108,7 +1120,7 @@ def _(o, rng):
 def _(o, rng):
     p = os.path.join(o.path, "inventory.json." + o.alg)
     d = open(p).read().split()[0]
-    rewrite(p, rng.choice([d, d + "\n", d + " inventory.jsn\n", d + "inventory.json\n", "inventory.json " + d + "\n", d + " \n",
+    rewrite(p, pick(o, rng, [d, d + "\n", d + " inventory.jsn\n", d + "inventory.json\n", "inventory.json " + d + "\n", d + " \n",
                            "", d + " inventory.json extra\n", d + " ./inventory.json\n", d + "  *inventory.json\n"]).encode())
     return both(INVALID)
 
@@ -1117,7 +1129,7 @@ def _(o, rng):
 def _(o, rng):
     p = os.path.join(o.path, "inventory.json." + o.alg)
     d = open(p).read().split()[0]
-    rewrite(p, rng.choice([d + "   inventory.json\n", d + "\tinventory.json\n", d + " \t inventory.json\n"]).encode())
+    rewrite(p, pick(o, rng, [d + "   inventory.json\n", d + "\tinventory.json\n", d + " \t inventory.json\n"]).encode())
     return both(VALID)
 
 
@@ -1125,13 +1137,13 @@ def _(o, rng):
 def _(o, rng):
     p = os.path.join(o.path, "inventory.json." + o.alg)
     d = open(p).read().split()[0]
-    rewrite(p, rng.choice([d + " inventory.json", d.upper() + " inventory.json\n", d + " inventory.json\r\n", d + " inventory.json\n\n"]).encode())
+    rewrite(p, pick(o, rng, [d + " inventory.json", d.upper() + " inventory.json\n", d + " inventory.json\r\n", d + " inventory.json\n\n"]).encode())
     return (None, None)
 
 
 @edit("fs-sidecar-missing")
 def _(o, rng):
-    where = rng.choice([o.path, os.path.join(o.path, o.head)])
+    where = pick(o, rng, [o.path, os.path.join(o.path, o.head)])
     p = os.path.join(where, "inventory.json." + o.alg)
     if not os.path.exists(p):
         return None
@@ -1169,16 +1181,26 @@ def _(o, rng):
     return both(VALID)        # W010
 
 
+@edit("fs-version-sidecar-without-inventory")
+def _(o, rng):
+    """a version directory that keeps its digest sidecar but has no inventory (3.3 E015 allows both files, W010)"""
+    hp = os.path.join(o.path, o.head, "inventory.json")
+    if not os.path.exists(hp):
+        return None
+    os.remove(hp)
+    return (None, None)
+
+
 @edit("fs-root-inventory-broken")
 def _(o, rng):
-    kind = rng.choice(["truncate", "bom", "trailing", "empty", "comment", "single-quote", "nan"])
+    kind = pick(o, rng, ["truncate", "bom", "trailing", "empty", "comment", "single-quote", "nan"])
     d = o.data
     if kind == "truncate":
         d = d[: max(1, len(d) - rng.randint(1, 20))].rstrip(b"} \n")
     elif kind == "bom":
         d = b"\xef\xbb\xbf" + d
     elif kind == "trailing":
-        d = d + rng.choice([b"x", b"{}", b",", b"]"])
+        d = d + pick(o, rng, [b"x", b"{}", b",", b"]"])
     elif kind == "empty":
         d = b""
     elif kind == "comment":
@@ -1194,7 +1216,7 @@ def _(o, rng):
 @edit("inventory-not-object")
 def _(o, rng):
     """the root inventory is well-formed JSON but not an object (string, number, array, true, null)"""
-    d = rng.choice([b'"inventory"', b"7", b"[]", b"true", b"null", b'[{"id": "x"}]', b"1.5e3", b'""'])
+    d = pick(o, rng, [b'"inventory"', b"7", b"[]", b"true", b"null", b'[{"id": "x"}]', b"1.5e3", b'""'])
     vallib.write_inventory(o.path, d, alg=o.alg, head=o.head)
     return both(INVALID)
 
@@ -1204,10 +1226,10 @@ def _(o, rng):
     ds = _prior_dirs(o)
     if not ds:
         return None
-    d = rng.choice(ds)
+    d = pick(o, rng, ds)
     p = os.path.join(d, "inventory.json")
     a = jget(jload(open(p, "rb").read()), "digestAlgorithm")
-    out = rng.choice([b'"inventory"', b"7", b"[]", b"true", b"null", b"{}"])
+    out = pick(o, rng, [b'"inventory"', b"7", b"[]", b"true", b"null", b"{}"])
     rewrite(p, out)
     rewrite(p + "." + a, (hashlib.new(a, out).hexdigest() + " inventory.json\n").encode())
     return both(INVALID)
@@ -1221,7 +1243,7 @@ def _(o, rng):
     d = rng.choice(ds)
     p = os.path.join(d, "inventory.json")
     t = jload(open(p, "rb").read())
-    kind = rng.choice(["id", "head", "cdir", "state", "type-later", "broken"])
+    kind = pick(o, rng, ["id", "head", "cdir", "state", "type-later", "broken"])
     vn = os.path.basename(d)
     if kind == "id":
         jset(t, "id", jget(t, "id") + "-other")
@@ -1331,7 +1353,7 @@ def _mk_escape(pos):
     cands = [i for i, l in enumerate(labels) if l == pos]
     if not cands:
         return None
-    chosen = rng.choice(cands)
+    chosen = pick(o, rng, cands)
 
     def esc(x):
         if not x:
@@ -1359,8 +1381,8 @@ for _pos in ESC_POSITIONS:
 
 @edit("nonascii-metadata")
 def _(o, rng):
-    form = rng.choice(["NFC", "NFD"])
-    nid = unicodedata.normalize(form, rng.choice(["urn:example:über-é", "info:日本語/\U0001F600", "ark:/12345/åäö"]))
+    form = pick(o, rng, ["NFC", "NFD"])
+    nid = unicodedata.normalize(form, pick(o, rng, ["urn:example:über-é", "info:日本語/\U0001F600", "ark:/12345/åäö"]))
     nm = unicodedata.normalize(form, "Zoë Ångström")
 
     def f(t):
@@ -1380,9 +1402,9 @@ def _(o, rng):
     cands = [(d, ps[0]) for d, ps in m if ps]
     if not cands:
         return None
-    d, p = rng.choice(cands)
-    form = rng.choice(["NFC", "NFD"])
-    newname = unicodedata.normalize(form, rng.choice(["über.txt", "résumé final.pdf", "日本語.txt", "\U0001F600.bin"]))
+    d, p = pick(o, rng, cands)
+    form = pick(o, rng, ["NFC", "NFD"])
+    newname = unicodedata.normalize(form, pick(o, rng, ["über.txt", "résumé final.pdf", "日本語.txt", "\U0001F600.bin"]))
     np = os.path.dirname(p) + "/" + newname
     if os.path.exists(os.path.join(o.path, np)):
         return None
@@ -1407,6 +1429,13 @@ def _(o, rng):
                 st[0][1][0] = lp
     o.edit_all(f)
     return both(VALID)
+
+
+# edits whose first choice ranges over a list of variants: make at least one object per variant
+VARIANTS = {"created-valid": len(CREATED_VALID), "created-invalid": len(CREATED_INVALID), "lpath-bad": len(LPATH_BAD),
+            "lpath-odd-valid": len(LPATH_ODD), "head-bad": 11, "alg-name": 8, "type-uri": 7, "cdir-bad": 7, "version-key-bad": 9,
+            "user-bad": 12, "cpath-bad": 6, "fs-declaration-content": 8, "fs-sidecar-format-bad": 10, "fs-root-inventory-broken": 7,
+            "fixity-block-bad": 6, "inventory-not-object": 8, "prior-inventory-edit": 6, "message-odd-valid": 8}
 
 
 # --------------------------------------------------------------------------- corpus
@@ -1455,6 +1484,38 @@ def history_objects(ctx, n_hist, length):
     return out
 
 
+def regression_objects(ctx):
+    """must-detect objects of defects found by this check and repaired in /repo:
+    b049716 - fixity_check kept one expected digest per algorithm (a HashMap): (a) a wrong sha512 fixity digest
+    of a file listed in a prior version inventory was never compared with the file (E093), (b) a content file
+    that does not match its manifest digest passed when a sha512 fixity entry carried its real digest (E092)"""
+    out = []
+    base = os.path.join(ctx.tmp, "regression")
+    os.makedirs(base)
+    off = os.path.join(vallib.FIX, "official-1.0", "valid")
+    # (a)
+    dst = os.path.join(base, "fixity-a")
+    shutil.copytree(os.path.join(off, "updates_three_versions_one_file"), dst)
+    o = Obj(dst)
+    p = [ps[0] for _, ps in o.manifest() if ps and ps[0].startswith("v1/")][0]
+    d = hashlib.sha512(open(os.path.join(dst, p), "rb").read()).hexdigest()
+    jset(o.t, "fixity", O([("sha512", O([(d[:-1] + ("0" if d[-1] != "0" else "1"), [p])]))]))
+    o.save()
+    out.append(("regression/b049716-a wrong own-algorithm fixity digest, prior inventories", dst, (INVALID, VALID)))
+    # (b)
+    dst = os.path.join(base, "fixity-b")
+    shutil.copytree(os.path.join(off, "minimal_one_version_one_file"), dst)
+    o = Obj(dst)
+    d, ps = o.manifest()[0]
+    nd = d[:-1] + ("0" if d[-1] != "0" else "1")
+    o.manifest()[0] = (nd, ps)
+    jrename(jget(o.headblock(), "state"), d, nd)
+    jset(o.t, "fixity", O([("sha512", O([(d, list(ps))]))]))
+    o.save()
+    out.append(("regression/b049716-b wrong manifest digest hidden by own-algorithm fixity entry", dst, (INVALID, VALID)))
+    return out
+
+
 def p_job(args):
     root, = args
     return vallib.p_verdict(root, True), vallib.p_verdict(root, False)
@@ -1495,6 +1556,10 @@ def run(ctx):
     for name, path, exp in written:
         corpus.append(dict(name=name, path=path, kind="written", source="written", exp=(exp, exp)))
 
+    regress = regression_objects(ctx)
+    for name, path, exp in regress:
+        corpus.append(dict(name=name, path=path, kind="regression", source="regression", exp=exp))
+
     bases = [(n, p) for n, p, e in fixtures if e == VALID] + [(n, p) for n, p, e in written]
     per_edit = 9 if quick else 60
     mdir = os.path.join(ctx.tmp, "mut")
@@ -1505,14 +1570,16 @@ def run(ctx):
         order = list(bases)
         rng.shuffle(order)
         made = 0
+        want = max(per_edit, VARIANTS.get(ename, 0))
         for bname, bpath in order:
-            if made >= per_edit:
+            if made >= want:
                 break
             k += 1
             dst = os.path.join(mdir, "m%05d" % k)
             link_tree(bpath, dst)
             try:
                 o = Obj(dst)
+                o.k = made
                 exp = f(o, rng)
             except (KeyError, IndexError, TypeError, AttributeError, ValueError, OSError) as ex:
                 exp = None
@@ -1538,6 +1605,7 @@ def run(ctx):
     matrix = collections.Counter()
     by_kind = collections.defaultdict(collections.Counter)
     n_known = 0
+    n_known_lp = 0
     for c, r1, r2, g, (p1, p2) in zip(corpus, R1, R2, G, P):
         for mode, r, gc, pc, exp in (("fixity", r1, g["fix"], p1, c["exp"][0]), ("nofixity", r2, g["nofix"], p2, c["exp"][1])):
             rv = None if r["kind"] in ("panic", "timeout", "error") else (r["kind"] == "invalid")
@@ -1559,19 +1627,23 @@ def run(ctx):
                 if g["known"] and KNOWN_SLUG in known_ids and rv is not None and rv and not gv:
                     ctx.known_hit(KNOWN_SLUG)
                     n_known += 1
+                elif g["known_empty_lpath"] and KNOWN_EMPTY_LPATH in known_ids and rv is False and gv and set(gc) == {52}:
+                    # the logical-path grammar (E051-E053) is the only clause the independent validators report
+                    ctx.known_hit(KNOWN_EMPTY_LPATH)
+                    n_known_lp += 1
                 else:
                     d = detail()
                     d["expected"] = "rocfl validate must report %s: the independent validators agree (%s)" % (
                         "errors" if gv else "no error", "a MUST of the specification is broken" if gv else "the object is valid")
                     ctx.violation("impl-violation", d)
 
-    ctx.coverage["corpus"] = {"fixtures": len(fixtures), "written_by_rocfl": len(written), "edits": sum(edit_counts.values()),
+    ctx.coverage["corpus"] = {"fixtures": len(fixtures), "written_by_rocfl": len(written), "regression": len(regress), "edits": sum(edit_counts.values()),
                               "objects": len(corpus), "verdict_pairs": 2 * len(corpus)}
     ctx.coverage["edit_kinds"] = dict(edit_counts)
     ctx.coverage["verdict_matrix"] = dict(matrix)
     ctx.coverage["matrix_by_kind"] = {k_: dict(v) for k_, v in by_kind.items()}
     ctx.coverage["traces_validated_against_impl"] = 2 * len(corpus)
-    ctx.coverage["known_class_objects"] = {KNOWN_SLUG: n_known}
+    ctx.coverage["known_class_objects"] = {KNOWN_SLUG: n_known, KNOWN_EMPTY_LPATH: n_known_lp}
     ctx.assumptions.append("object-level rules (directory structure, sidecars, cross-inventory consistency, fixity) of Model/Validate.v are tied to the specification by the fixture corpus and the second independent validator, not by a Coq theorem; digests enter the model as computed by Python hashlib")
     ctx.assumptions.append("rocfl's verdict is the exit status of the release CLI `rocfl validate -p` (2 = invalid) built from the current tree")
     return common.finish_with_proof(ctx, proof,
